@@ -17,6 +17,9 @@ SHAPES = {
     'array in the middle': lambda L: [L[0], ListV([L[1], L[2]]), L[3]],
     'nested arrays': lambda L: [ListV([L[0], ListV([L[1]])]), ListV([ListV([L[2]]), L[3]])],
     'one array': lambda L: [ListV(L)],
+    # a range value handed over by the host as rows of tuples (cursor rows) is an array like any other
+    'rows of tuples': lambda L: [ListV([ListV([L[0], L[1]], 'tuple'), ListV([L[2], L[3]], 'tuple')])],
+    'tuple of tuples in the middle': lambda L: [L[0], ListV([ListV([L[1]], 'tuple'), ListV([L[2]], 'tuple')], 'tuple'), L[3]],
 }
 
 
@@ -505,6 +508,11 @@ def _r7(model, res):
         if o.imprecise or o.kind != 'return' or o.value.tag != 'err':
             continue
         for (t, alt, s_) in o.notes:
+            if isinstance(s_, Atom) and s_.op == 'isclose':
+                res.ob('R7', 'SLOPE', 'the error exit is taken only for a zero denominator', False, t)
+                res.violation('R7', 'function:SLOPE:tolerance', m.where(f),
+                              'SLOPE gives an error on the decision "%s" - a comparison with a tolerance: x values with a small but non-zero spread '
+                              '(where the least-squares slope is perfectly defined) yield an error instead of the slope' % t[:120], func=f.name)
             if isinstance(s_, Atom) and s_.op in ('lt', 'le', 'gt', 'ge') and any(isinstance(a, Const) and isinstance(a.value, (int, float))
                                                                                    and not isinstance(a.value, bool) and a.value != 0 for a in s_.args):
                 res.ob('R7', 'SLOPE', 'the error exit is taken only for a zero denominator', False, t)
